@@ -5,6 +5,7 @@
 import Fx.Eval
 import Fx.Lemmas.Advance
 import Fx.Props.C10
+import Fx.Lemmas.LogBound
 namespace Fx.C09
 open Fx
 
@@ -34,5 +35,24 @@ theorem C09_string_copy (max : Option Nat) (n : Nat) (hn : n < 2^32) (o : Nat) (
       · cases h
         simp [Nat.min_eq_left hle, hle]
       · cases h
+
+/-- **Every allocation request of a decode call is bounded by the bytes present**: for ALL byte strings, ALL plans,
+    every type and fuel, and whether the call succeeds or fails, the allocation log of the call extends the
+    incoming log by events — `Vec` reservations (in elements), string copies (in bytes), one `Box` per optional
+    link — each of weight at most the number of bytes in the input view.  A count word alone reserves nothing. -/
+theorem C09_requests_bounded (a : Ast) (p : Plans) (fuel : Nat) (name : String) (c : Cur) (l' : List Ev)
+    (h : (evalImpl a p fuel name c).log? = some l') :
+    ∃ new, l' = c.log ++ new ∧ ∀ e ∈ new, e.weight ≤ c.remaining :=
+  (eval_logB a p fuel).1 name c l' h
+
+/-- the same for the counted-array reader on its own, for ANY element decoder that obeys the bound -/
+theorem C09_array_reader_bounded (dec : Cur → Res Val) (ws : Val → Nat) (hd : ∀ c, LogB c (dec c))
+    (m : Option Nat) (c : Cur) : LogB c (readVariableArray dec ws m c) :=
+  readVariableArray_logB dec ws hd m c
+
+/-- the defect repaired by F2, against the pre-repair reservation `Vec::with_capacity(n)`:
+    four bytes (a count of 2^32-1) requested 2^32-1 elements -/
+def reserve_old (n : Nat) (_remaining : Nat) : Ev := .vec n
+theorem C09_defect_reserve_old : (reserve_old (2^32 - 1) 0).weight = 4294967295 := by decide
 
 end Fx.C09
